@@ -174,7 +174,8 @@ def eval_case(cg, start, n, inject):
         P.append({"tag": 0, "form": "start", "esym": 0, "exact": False, "unit": False, "syms": [{"k": "sym", "i": 1, "sel": False}],
                   "fail": {"on": False, "s": 1, "m": 1, "r": 0}})
     case = {"id": "%s@%s" % (cg["id"], start), "G": G, "sp": sp[start], "n": n, "inject": inject, "P": P,
-            "inl": list(cg.get("inline", []))}
+            "inl": list(cg.get("inline", [])),
+            "kinds": [cg["kinds"].get(nt, "V") for nt in G["nts"]]}
     if cg.get("prec"):
         pr = cg["prec"]
         n = len(G["prods"])
